@@ -527,6 +527,7 @@ class Run:
                 print('VIOLATION property=%s replay=%s' % (self.pid, path))
                 print('  harness %s: %s' % (qn, desc))
             return 1
+        if not self.queries: self.problems.append('no query was run (nothing matched / nothing built): an empty run proves nothing')
         if self.problems:
             for p in self.problems: print('INCONCLUSIVE: ' + p)
             return 2
